@@ -123,10 +123,21 @@ def engine_cyc(bd, wd, quick, seed, traces, case_files, verdict):
     if quick:
         t = t.replace("MaxQueries = 2", "MaxQueries = 1")
     open(cfgx, "w").write(t)
-    r_cex = vp.tlc("EngineCycMC", cfg=cfgx, env=envw if quick else envf, workers=4, timeout=1500, check_ok=False)
+    r_cex = vp.tlc("EngineCycMC", cfg=cfgx, env=envw, workers=4, timeout=1500, check_ok=False)
     cex = os.path.join(wd, "cycm_cex.ndjson")
     ncex = _json_lines(r_cex["out"], cex)
     states += r_cex["distinct"]
+    if not quick:
+        # ... and over the small programs of the family (one query per epoch), as far as 15 minutes go
+        cfgx1 = os.path.join(wd, "EngineCycMC_cex1.cfg")
+        open(cfgx1, "w").write(t.replace("MaxQueries = 2", "MaxQueries = 1"))
+        r2 = vp.tlc("EngineCycMC", cfg=cfgx1, env={"FAMILY": small, "SHARD": "0", "SHARDS": "1"}, workers=8, timeout=900,
+                    check_ok=False, timeout_ok=True, xmx="8g")
+        cex2 = os.path.join(wd, "cycm_cex_family.ndjson")
+        n2 = _json_lines(r2["out"], cex2)
+        open(cex, "a").writelines(open(cex2).readlines())
+        ncex += n2
+        states += r2["distinct"]
     ev["counterexamples_of_other_variant"] = {"variant": other, "histories": ncex}
     if other == "retain" and ncex == 0:
         raise vp.ToolError("EngineCycMC: no counterexample of the retain variant was generated:\n" + r_cex["out"][-2000:])
